@@ -194,8 +194,7 @@ class Interp:
         return out
 
     # ------------------------------------------------------------------
-    def call_function(self, module, fn, args, kwargs, self_obj=None, owner=None, name=None):
-        """inline a FunctionDef with evaluated args. Returns value or Raised."""
+    def _bind(self, module, fn, args, kwargs, self_obj, owner, name):
         if self.depth >= self.max_depth:
             raise Unsupported('inlining depth exceeded at %s' % (name or fn.name))
         names, defaults, vararg, kwarg = params(fn)
@@ -219,17 +218,17 @@ class Interp:
             if vararg:
                 env[vararg] = ListV(args[len(pos_names):])
             else:
-                raise Unsupported('too many positional arguments for %s' % fn.name)
+                raise _RaisedExc(Raised('TypeError', fn))
         extra = {}
         for k, v in kwargs.items():
             if k in names:
                 if k in env:
-                    raise Unsupported('duplicate argument %s for %s' % (k, fn.name))
+                    raise _RaisedExc(Raised('TypeError', fn))
                 env[k] = v
             elif kwarg:
                 extra[k] = v
             else:
-                raise Unsupported('unexpected keyword %s for %s' % (k, fn.name))
+                raise _RaisedExc(Raised('TypeError', fn))
         if kwarg:
             env[kwarg] = DictV(extra)
         if vararg and vararg not in env:
@@ -239,7 +238,17 @@ class Interp:
                 if n_ in defaults:
                     env[n_] = Frame(self, module, {}, owner, None).ev(defaults[n_])
                 else:
-                    raise Unsupported('missing argument %s for %s' % (n_, fn.name))
+                    raise _RaisedExc(Raised('TypeError', fn))
+        return env
+
+    def call_function(self, module, fn, args, kwargs, self_obj=None, owner=None, name=None):
+        """inline a FunctionDef with evaluated args. Returns value or Raised."""
+        try:
+            env = self._bind(module, fn, args, kwargs, self_obj, owner, name)
+        except _RaisedExc as r:
+            if self.depth > 0:
+                raise
+            return r.raised
         self.depth += 1
         self.calls.append(name or fn.name)
         try:
@@ -652,6 +661,8 @@ class Frame:
             return list(it.d.keys())
         if isinstance(it, str):
             return list(it)
+        if it is None or isinstance(it, (bool, Rat)):
+            raise _RaisedExc(Raised('TypeError', node))     # not iterable
         if isinstance(it, Obj) and it.ci is not None and self.I.repo.find_method(it.ci, '__iter__', missing_ok=True):
             r = self.I.call_method(it, '__iter__', [], {})
             if isinstance(r, ListV):
@@ -879,6 +890,8 @@ class Frame:
                 return r
             raise Unsupported('slice of %r' % (base,), n, self.module.relpath)
         idx = self.ev(n.slice)
+        if isinstance(base, ListV) and isinstance(idx, str):
+            raise _RaisedExc(Raised('TypeError', n))
         if isinstance(base, ListV) and isinstance(idx, ListV):
             cur = base
             for ix in idx.items:
@@ -898,6 +911,10 @@ class Frame:
         if isinstance(base, Obj) and base.ci is not None and \
                 self.I.repo.find_method(base.ci, '__getitem__', missing_ok=True):
             return self.I.call_method(base, '__getitem__', [idx], {})
+        if isinstance(base, Obj) or base is None or isinstance(base, bool):
+            raise _RaisedExc(Raised('TypeError', n))        # not subscriptable
+        if isinstance(base, (ListV, str)) and isinstance(idx, str):
+            raise _RaisedExc(Raised('TypeError', n))        # list/str indices must be integers
         if isinstance(base, Elem):
             raise Unsupported('indexing into a vector of unknown length', n, self.module.relpath)
         if isinstance(base, Rat) and isinstance(idx, Rat):
@@ -1365,6 +1382,15 @@ def builtin_call(I, fr, name, args, kwargs, n):
             return "<class '%s'>" % args[0].qual
         if args and isinstance(args[0], str):
             return args[0]
+        if args and isinstance(args[0], Obj) and args[0].ci is not None:
+            got = I.repo.find_method(args[0].ci, '__str__', missing_ok=True)
+            if got:
+                try:
+                    r = I.call_method(args[0], '__str__', [], {})
+                    if isinstance(r, str):
+                        return r
+                except Unsupported:
+                    pass        # symbolic content: the text itself is not modelled
         return '<str>'
     if name == 'dict':
         d = DictV(kwargs)
@@ -1391,8 +1417,14 @@ def bound_native(I, fr, bn, args, kwargs, n):
             else:
                 b.items.append(v)
             return None
-        if name in ('tolist', 'copy'):
-            return ListV(list(b.items))
+        if name == 'copy':
+            r = ListV(list(b.items))
+            r.is_array = getattr(b, 'is_array', False)
+            return r
+        if name in ('tolist', 'item') and not getattr(b, 'is_array', False):
+            raise _RaisedExc(Raised('AttributeError', n))     # a plain list has no tolist()/item()
+        if name == 'tolist':
+            return ListV([x if not isinstance(x, ListV) else ListV(list(x.items)) for x in b.items])
         if name == 'item':
             return b.items[_as_int(args[0], n)] if args else b.items[0]
         if name == 'extend':
